@@ -28,7 +28,7 @@ def seeded_block():
         exp = m.get("expected_detection") or {}
         caught = ", ".join(exp.get("keys", [])) if not exp.get("undetected") else "**not detected** — " + exp.get("why", "")
         fe = m.get("first_evaluation") or {}
-        first = fe.get("result", "own property" if (exp.get("by_own_property") and not m.get("strengthened_after")) else "")
+        first = fe.get("result", "(not recorded separately)")
         if fe.get("rules_added_or_strengthened_afterwards"):
             first += "; afterwards: " + fe["rules_added_or_strengthened_afterwards"]
         rows.append("| %s | %s | %s | %s | %s | %s |" % (os.path.basename(d.rstrip("/")), m.get("property"), (m.get("summary") or "")[:260].replace("|", "\\|").replace("\n", " "),
